@@ -1,5 +1,6 @@
 import HumphreyModel.Proofs.RespSim
 import HumphreyModel.Spec.HttpMsg
+import HumphreyModel.Model.Client
 
 /-!
 # C07 — responses serialise to valid HTTP and parse back; the parser returns what was sent
@@ -108,5 +109,49 @@ theorem serialize_crlf_pad_witness :
     serializeResponse ⟨[72, 84, 84, 80, 47, 49, 46, 49], 200, [], [120]⟩ =
       [72, 84, 84, 80, 47, 49, 46, 49, 32, 50, 48, 48, 32, 79, 75, 13, 10, 13, 10, 120, 13, 10] := by
   decide
+
+/-! ## The client and redirects -/
+
+/-- A redirect chain: `reqs[i]` is answered by a 301/302/307 whose Location leads to `reqs[i+1]`. -/
+def RedirectChain (net : CReq → Option Response) : List CReq → CReq → Prop
+  | [], _ => True
+  | r :: rest, last =>
+    ∃ resp l next, net r = some resp ∧ isRedirect resp.status = true ∧
+      resp.headers.get hLocation = some l ∧ follow r l = some next ∧
+      (match rest with | [] => next = last | r' :: _ => next = r') ∧ RedirectChain net rest last
+
+/-- **With redirect following enabled the client ends at the final non-redirect response**: for a
+chain of any length over {301, 302, 307} with relative or absolute Locations, `send` makes exactly
+the chain's requests, in order, and returns the response to the last one. -/
+theorem client_follows_redirects (net : CReq → Option Response) (chain : List CReq) (last : CReq)
+    (final : Response) (first : CReq)
+    (hfirst : first = (chain ++ [last]).head (by simp))
+    (hchain : RedirectChain net chain last)
+    (hfinal : net last = some final) (hnr : isRedirect final.status = false)
+    (fuel : Nat) (hfuel : chain.length < fuel) :
+    clientSend net true fuel first = (some final, chain ++ [last]) := by
+  induction chain generalizing first fuel with
+  | nil =>
+    simp at hfirst; subst hfirst
+    cases fuel with
+    | zero => omega
+    | succ fuel => simp [clientSend, hfinal, hnr]
+  | cons r rest ih =>
+    simp at hfirst; subst hfirst
+    obtain ⟨resp, l, next, hn, hr, hl, hf, hnext, hrest⟩ := hchain
+    cases fuel with
+    | zero => simp at hfuel
+    | succ fuel =>
+      have hhead : next = (rest ++ [last]).head (by simp) := by
+        cases rest with
+        | nil => simpa using hnext
+        | cons r' rs => simpa using hnext
+      have := ih next hhead hrest fuel (by simp at hfuel; omega)
+      simp [clientSend, hn, hr, hl, hf, this]
+
+/-- Without redirect following the client returns the first response, whatever its status. -/
+theorem no_follow_returns_first (net : CReq → Option Response) (r : CReq) (resp : Response) (fuel : Nat)
+    (h : net r = some resp) : clientSend net false (fuel + 1) r = (some resp, [r]) := by
+  simp [clientSend, h]
 
 end Humphrey.Http
